@@ -187,7 +187,7 @@ Proof.
 Qed.
 
 Lemma has_bad_push m k it : has_bad m = true \/ ibad it = true -> has_bad (kv_push m k it) = true.
-Proof. unfold has_bad, kv_push. rewrite existsb_app. cbn [existsb snd]. intros [-> | ->]; [reflexivity|]. rewrite orb_true_r. apply orb_true_r. Qed.
+Proof. unfold has_bad, kv_push. rewrite existsb_app. cbn [existsb snd]. intros [-> | ->]; [reflexivity|]. cbn [orb]. apply orb_true_r. Qed.
 
 Lemma has_bad_set m k k' it0 it : kv_get m k = Some (k', it0) -> ibad it = true -> has_bad (kv_set m k it) = true.
 Proof.
@@ -410,7 +410,7 @@ Section Render.
     exists w0, kt, (map k_key kp), w1, w2, t, a, o, w3. repeat (split; [assumption|]). split; [|split; [exact Hk4|split; [|exact Hst]]].
     - pose proof (splits_trans _ _ _ _ _ S1 (splits_trans _ _ _ _ _ Se (splits_trans _ _ _ _ _ S2 (splits_trans _ _ _ _ _ S3 S4)))) as S.
       rewrite <- !app_assoc in *. exact S.
-    - cbn [fst snd]. eexists. split; [reflexivity|]. intros -> Hs f dflt D z Hf. rewrite vplain_decorate in Hs.
+    - unfold prend. cbn [fst snd]. eexists. split; [reflexivity|]. intros -> Hs f dflt D z Hf. rewrite vplain_decorate in Hs.
       assert (Ekp : kp = [k]) by (apply (DefsEquivSim.pop_key_some _ _ _ Ep)). subst kp. subst pre' suf'.
       rewrite (vrend_decorated s v' o k1 w2 k2 k3 w3 k4 Hv Hk1 S2 Hk3 S4 Hs f dflt Hf).
       cbn [map] in Hkenc. rewrite (Hkenc D). rewrite (ncr_ws w2 Hw2), (ncr_ws w3 Hw3). rewrite <- !app_assoc. reflexivity.
